@@ -228,6 +228,21 @@ def readSeqFrom (d : Dec I) : List (Option Str × List Bytes) → List (Except P
     let o := readBodyFrom I (setupDecompressor I d enc) ps
     o.result :: readSeqFrom o.final rest
 
+/-! ### which body reader runs -/
+
+/-- what `Stream.get_read_strategy` answers from the response header -/
+inductive Framing
+  | chunked | length | close
+  deriving DecidableEq, Repr, Inhabited
+
+/-- The reader that really consumes the body: `read_body` replaces `length` by
+`close` under `ignore_length` (only `length`: a chunked body stays chunked, its
+framing never reaches the decoder), and `_read_body_by_length` falls back to
+`_read_body_until_close` when the Content-Length does not parse. -/
+def effectiveFraming (ignoreLength lengthParses : Bool) : Framing → Framing
+  | .length => if ignoreLength || !lengthParses then .close else .length
+  | f => f
+
 /-! ### Content-Length framing: which pieces reach the decoder -/
 
 /-- The read loop of `Stream._read_body_by_length`: `reads` are the byte strings
